@@ -148,6 +148,7 @@ package compression
 //@   modifies noOpDecompressor.ReadCloser
 //@   ensures result == nil
 //@   ensures typeis(reader, io.ReadCloser) ==> c.ReadCloser == reader
+//@   ensures @rewired !typeis(reader, io.ReadCloser) ==> c.ReadCloser != nil && nopSrcOf(c.ReadCloser) == reader //# reuse: every Reset reads from the new source
 //@ func (*noOpCloser).Close
 //@   modifies nothing
 //@   ensures result == nil
